@@ -68,6 +68,11 @@ def findings_of(out):
 
 def run_variant(v, prop):
     d, why = make_variant(v["edits"])
+    if d is not None and v.get("patch"):
+        r = subprocess.run(["patch", "-p1", "-s", "-d", d, "-i", v["patch"]], capture_output=True, text=True)
+        if r.returncode != 0:
+            shutil.rmtree(d, ignore_errors=True)
+            d, why = None, "patch does not apply to the current tree"
     if d is None:
         return {"id": v["id"], "status": "not-applicable", "why": why}
     try:
@@ -95,9 +100,32 @@ def run_variant(v, prop):
     return res
 
 
+def seeded_patches(prop):
+    """Seeded changes written by independent sub-agents (/verif/seeded/<id>/): each is a variant for every property whose
+    check was confirmed to fire on it."""
+    out = []
+    root = os.path.join(VERIF, "seeded")
+    if not os.path.isdir(root):
+        return out
+    for d in sorted(os.listdir(root)):
+        mp = os.path.join(root, d, "meta.json")
+        if not os.path.exists(mp):
+            continue
+        try:
+            with open(mp) as fp:
+                m = json.load(fp)
+        except Exception:
+            continue
+        fired = (m.get("checks_that_fire") or {}).get(prop)
+        if fired:
+            out.append({"id": "seeded/" + d, "props": [prop], "kind": "seeded", "rule": fired[0].split(":")[0],
+                        "patch": os.path.join(root, d, "patch.diff"), "edits": []})
+    return out
+
+
 def corpus_for(prop):
     from . import corpus
-    return [v for v in corpus.VARIANTS if prop in v["props"]]
+    return [v for v in corpus.VARIANTS if prop in v["props"]] + seeded_patches(prop)
 
 
 def run_for_property(prop, verbose=True):
